@@ -178,7 +178,7 @@ type verifLBMPut struct {
 	loc      Location
 	finalOK  bool
 	finalRun int
-	finalRot int // rotations that had happened when the finalizer reported loc
+	finalRot int    // rotations that had happened when the finalizer reported loc
 	data     []byte // what the put writer copied
 }
 
@@ -824,7 +824,6 @@ func verifScenarioHierTouch(findMissing bool) {
 	vnd.Observe("htouch", uint64(p0), uint64(k0))
 }
 
-
 // ---------------------------------------------------------------------------
 // Scenario: hierarchicalCASBlobAccess.FindMissing over TWO digests (same
 // instance name, different objects) with every outcome at every call symbolic:
@@ -936,7 +935,6 @@ func verifScenarioHierFindMissingTwo() {
 	}
 	vnd.Observe("hfm2", uint64(len(h.lbm.puts)), uint64(len(h.klm.puts)))
 }
-
 
 // ---------------------------------------------------------------------------
 // Reads and existence checks while ANOTHER request rotates the block list: a
